@@ -404,7 +404,7 @@ def transform_values(ctx):
         rets = [s for s in fn.body if isinstance(s, ast.Return)]
         D = rets[0].value.elts[0].id if rets and isinstance(rets[0].value, ast.Tuple) and isinstance(rets[0].value.elts[0], ast.Name) else None
         st = [s for s in S if D and isinstance(s.tnode, ast.Subscript) and unparse(s.tnode.value) == D and len(s.loops) == 3]
-        ok, why, line = False, "data store not found", fn.lineno
+        ok, why, line = None, "data store not found", fn.lineno
         if len(st) == 1:
             s = st[0]
             line = s.node.lineno
@@ -472,7 +472,7 @@ def transform_rows(ctx):
         S = roles.stores(fn.body, defs, lv=False)
         rs = [s for s in S if isinstance(s.tnode, ast.Subscript) and unparse(s.tnode.value) == RI]
         cs = [s for s in S if isinstance(s.tnode, ast.Subscript) and unparse(s.tnode.value) == CI]
-        ok, why, line = False, "row/column index stores not found", fn.lineno
+        ok, why, line = None, "row/column index stores not found", fn.lineno
         if len(rs) == 1 and len(cs) == 1 and len(rs[0].loops) == 3 and rs[0].loops == cs[0].loops:
             lE, lF, lQ = rs[0].loops
             line = rs[0].node.lineno
@@ -491,7 +491,7 @@ def transform_rows(ctx):
     fn = m.fn("get_normals")
     defs = roles.Defs(fn)
     S = [s for s in roles.stores(fn.body, defs, lv=False) if isinstance(s.tnode, ast.Subscript) and len(s.loops) == 2]
-    okn, whyn = False, "normals store not found"
+    okn, whyn = None, "normals store not found"
     if len(S) == 1:
         lE, lQ = S[0].loops
         first = S[0].tnode.slice.elts[0] if isinstance(S[0].tnode.slice, ast.Tuple) else S[0].tnode.slice
@@ -508,7 +508,7 @@ def transform_rows(ctx):
         rets = [s for s in fn.body if isinstance(s, ast.Return)]
         VI = rets[0].value.elts[2].id if rets and isinstance(rets[0].value, ast.Tuple) and len(rets[0].value.elts) == 3 and isinstance(rets[0].value.elts[2], ast.Name) else None
         S = [s for s in roles.stores(fn.body, defs, lv=False) if VI and isinstance(s.tnode, ast.Subscript) and unparse(s.tnode.value) == VI]
-        okm, whym = False, "point-row store not found"
+        okm, whym = None, "point-row store not found"
         if len(S) == 1 and S[0].loops and isinstance(S[0].loops[0].target, ast.Tuple) and isinstance(S[0].vnode, ast.Call) and unparse(S[0].vnode.func).endswith("arange") and len(S[0].vnode.args) == 2:
             ELEM = _V.atom(S[0].loops[0].target.elts[1].id)
             lo, hi = (_poly_of(a, defs) for a in S[0].vnode.args)
@@ -875,7 +875,7 @@ def near_field_layout(ctx):
         G = arg_names(fn)[0]
         # deepest stores: 5 loops (target element, target point, component, source element index, source point)
         deep = [s for s in S if len(s.loops) == 5 and isinstance(s.tnode, ast.Subscript)]
-        ok, why, line = False, "innermost stores not found", fn.lineno
+        ok, why, line = None, "innermost stores not found", fn.lineno
         if deep:
             lT, lP, lC, lS, lQ = deep[0].loops
             line = deep[0].node.lineno
